@@ -1,0 +1,109 @@
+//! Public wrappers over the bounded MPSC queue for external runtime
+//! verification (feature `verif-hooks`). Not for production use!
+#![allow(missing_docs, missing_debug_implementations, unreachable_pub)]
+
+use std::ops::Deref;
+use std::sync::Arc;
+
+use recycle_box::RecycleBox;
+
+use super::queue::{MessageBorrow, PopError, PushError, Queue};
+
+/// Error returned by [`RawProducer::push`].
+#[derive(Debug, PartialEq, Eq)]
+pub enum RawPushError<T> {
+    /// The queue is full; the value is handed back.
+    Full(T),
+    /// The queue is closed.
+    Closed,
+}
+
+/// Error returned by [`RawConsumer::pop`].
+#[derive(Copy, Clone, Debug, PartialEq, Eq)]
+pub enum RawPopError {
+    Empty,
+    Closed,
+}
+
+/// Producer handle of the mailbox queue.
+pub struct RawProducer<T: 'static> {
+    inner: Arc<Queue<T>>,
+}
+
+impl<T: 'static> RawProducer<T> {
+    pub fn push(&self, value: T) -> Result<(), RawPushError<T>> {
+        match self.inner.push(move |b| RecycleBox::recycle(b, value)) {
+            Ok(()) => Ok(()),
+            Err(PushError::Full(f)) => {
+                let (value, _) = RecycleBox::take(f(RecycleBox::new(())));
+
+                Err(RawPushError::Full(value))
+            }
+            Err(PushError::Closed) => Err(RawPushError::Closed),
+        }
+    }
+    pub fn close(&self) {
+        self.inner.close()
+    }
+    pub fn is_closed(&self) -> bool {
+        self.inner.is_closed()
+    }
+    pub fn len(&self) -> usize {
+        self.inner.len()
+    }
+}
+
+impl<T: 'static> Clone for RawProducer<T> {
+    fn clone(&self) -> Self {
+        Self {
+            inner: self.inner.clone(),
+        }
+    }
+}
+
+/// Consumer handle of the mailbox queue.
+pub struct RawConsumer<T: 'static> {
+    inner: Arc<Queue<T>>,
+}
+
+impl<T: 'static> RawConsumer<T> {
+    /// Pops a message; its slot is released when the borrow is dropped.
+    pub fn pop(&mut self) -> Result<RawBorrow<'_, T>, RawPopError> {
+        // Safety: single-thread access is guaranteed since the consumer does
+        // not implement `Clone` and `pop` requires exclusive ownership.
+        match unsafe { self.inner.pop() } {
+            Ok(b) => Ok(RawBorrow(b)),
+            Err(PopError::Empty) => Err(RawPopError::Empty),
+            Err(PopError::Closed) => Err(RawPopError::Closed),
+        }
+    }
+    pub fn close(&self) {
+        self.inner.close()
+    }
+    pub fn len(&self) -> usize {
+        self.inner.len()
+    }
+}
+
+/// A message borrowed from the queue.
+pub struct RawBorrow<'a, T: 'static>(MessageBorrow<'a, T>);
+
+impl<T: 'static> Deref for RawBorrow<'_, T> {
+    type Target = T;
+
+    fn deref(&self) -> &T {
+        &self.0
+    }
+}
+
+/// Creates a queue with the specified capacity.
+pub fn raw_queue<T: 'static>(capacity: usize) -> (RawProducer<T>, RawConsumer<T>) {
+    let inner = Arc::new(Queue::new(capacity));
+
+    (
+        RawProducer {
+            inner: inner.clone(),
+        },
+        RawConsumer { inner },
+    )
+}
